@@ -364,3 +364,83 @@ func VC07_Burst() {
 	rt.Assert(seen == K && len(fakenet.Sent) == K, "every request of the burst reaches the backend once")
 	rt.Reach("end")
 }
+
+// VC07_Outbound: a listener created for an OUTBOUND TCP connection (the one the proxy opens to a
+// tcp:// backend) stamps requests arriving on it according to the no-received option of ITS OWN
+// listens entry — with a second listens entry configured the other way round.
+func VC07_Outbound() {
+	fakenet.Reset()
+	nr0 := rt.Bool("no-received-0")
+	nr1 := rt.Bool("no-received-1")
+	cfg := ProxyConfig{Name: wService}
+	type listen = struct {
+		Address            string
+		UDPPort            int      `yaml:"udp-port,omitempty"`
+		TCPPort            int      `yaml:"tcp-port,omitempty"`
+		BackendLocalAdress string   `yaml:"backend-local-address,omitempty"`
+		BackendLocalPort   int      `yaml:"backend-local-port,omitempty"`
+		Backends           []string `yaml:",omitempty"`
+		Dests              []string `yaml:",omitempty"`
+		NoReceived         bool     `yaml:"no-received,omitempty"`
+		defRoute           bool     `yaml:"def-route,omitempty"`
+		MustRecordRoute    bool     `yaml:"must-record-route,omitempty"`
+	}
+	cfg.Listens = append(cfg.Listens, listen{Address: wListenAddr, UDPPort: 5060, BackendLocalAdress: wListenAddr, BackendLocalPort: 5080,
+		Backends: []string{"tcp://10.0.1.1:5060"}, NoReceived: nr0})
+	cfg.Listens = append(cfg.Listens, listen{Address: "10.0.0.10", UDPPort: 5060, BackendLocalAdress: "10.0.0.10", BackendLocalPort: 5080,
+		Backends: []string{"udp://10.0.1.2:5060"}, NoReceived: nr1})
+	var backendConn *fakenet.TCPConn
+	fakenet.DialHook = func(network, address string) (fakenet.Conn, error) {
+		c := fakenet.NewTCPConn(wListenAddr+":40000", address)
+		if address == "10.0.1.1:5060" {
+			backendConn = c
+		}
+		return c, nil
+	}
+	err := startProxy(cfg, NewPreConfigRoute(), NewPreConfigHostResolver())
+	rt.Assert(err == nil, "proxy starts")
+	if err != nil {
+		return
+	}
+	rt.Quiesce()
+	var sock *fakenet.UDPConn
+	for _, u := range fakenet.UDPConns {
+		if u.LocalAddr().String() == wListenAddr+":5060" {
+			sock = u
+		}
+	}
+	rt.Assert(sock != nil, "UDP listener socket created")
+	if sock == nil {
+		return
+	}
+	// a client request makes the proxy open its connection to the TCP backend
+	first := "OPTIONS sip:bob@" + wService + " SIP/2.0\r\nVia: SIP/2.0/UDP 10.0.2.2:5060;branch=z9hG4bKo1\r\nFrom: <sip:alice@example.com>;tag=a\r\nTo: <sip:bob@" + wService +
+		">\r\nCall-ID: o1\r\nCSeq: 1 OPTIONS\r\nContent-Length: 0\r\n\r\n"
+	sock.Deliver("10.0.2.2:5060", []byte(first))
+	rt.Quiesce()
+	rt.Assert(backendConn != nil && len(backendConn.Written) == 1, "the request reaches the TCP backend over a connection the proxy opened")
+	if backendConn == nil {
+		return
+	}
+	// the backend sends a request of its own over that connection, routed to the client
+	via := "SIP/2.0/TCP 192.0.2.50:7777;branch=z9hG4bKo2;rport"
+	second := "MESSAGE sip:alice@example.com SIP/2.0\r\nVia: " + via + "\r\nRoute: <sip:10.0.2.2:5060;lr>\r\nFrom: <sip:bob@" + wService + ">;tag=b\r\nTo: <sip:alice@example.com>\r\nCall-ID: o2\r\nCSeq: 1 MESSAGE\r\nContent-Length: 0\r\n\r\n"
+	mark := len(fakenet.Sent)
+	backendConn.Feed([]byte(second))
+	rt.Quiesce()
+	out := sentTo("10.0.2.2:5060", mark)
+	rt.Assert(len(out) == 1, "the backend's request is relayed to the client")
+	if len(out) != 1 {
+		return
+	}
+	got := refRead(out[0]).listOf("via")
+	sender := got[len(got)-1]
+	if nr0 {
+		rt.Assert(sender == via, "outbound connection of a no-received listener: the sender's Via is relayed as sent")
+	} else {
+		r, has := paramOf(sender, "received")
+		rp, hasRp := paramOf(sender, "rport")
+		rt.Assert(has && r == "10.0.1.1" && hasRp && rp == "5060", "outbound connection of a listener with received-support: received / rport are stamped")
+	}
+	rt.Reach("end")
+}
